@@ -23,6 +23,8 @@ class Model:
         self.fields = self.I0.fields_of(fr)
         self.oracle = aggr.make_oracle(cfg, self.fields)
         self.alg = Algebra(self.I0, self.fields, rows_params=("x_rowids",))
+        # the array cube branches on ndim explicitly; the index cube accepts one or several fact columns alike
+        self.alg.ndim = cfg.ndim if module == "xfuncs" else None
         self.rows = {}
         for name in ROW_FIELDS:
             if name in self.fields:
